@@ -37,6 +37,9 @@ SepInfo(c) ==
         count |-> IF generatesSure /\ c.sepZeroEnt = 0 THEN CountValidBig(sr) ELSE One,     \* what the function reports
         nvals |-> IF generatesSure THEN CountValidBig(sr) ELSE One,                         \* how many values it really has
         isFunc |-> TRUE]
+  ELSE IF c.sepKind = "list" THEN     \* a caller-written function: one of the listed values (possibly empty), uniformly, reporting log2(#values)
+    [kind |-> "list", vals |-> SeqSet(c.wl.sepVals), canBeEmpty |-> <<>> \in SeqSet(c.wl.sepVals), uniform |-> TRUE,
+     count |-> FromInt(Len(c.wl.sepVals)), nvals |-> FromInt(Len(c.wl.sepVals)), isFunc |-> TRUE, refused |-> FALSE, generates |-> TRUE]
   ELSE IF c.sepKind = "none" THEN
     [kind |-> "none", canBeEmpty |-> TRUE, uniform |-> TRUE, count |-> One, nvals |-> One, isFunc |-> TRUE, refused |-> FALSE, generates |-> TRUE]
   ELSE
@@ -108,6 +111,7 @@ SepsOf(ts) == SelectSeq(ts, LAMBDA t : t.t = 0)
 SepValueOK(s) ==
   CASE info.sep.kind = "char" -> s = info.sep.val /\ s # <<>>
     [] info.sep.kind = "none" -> FALSE
+    [] info.sep.kind = "list" -> s \in info.sep.vals /\ s # <<>>
     [] OTHER -> LET sr == info.sep.r IN
                  /\ Len(s) = sr.len /\ \A p \in DOMAIN s : s[p] \in info.sep.aset
                  /\ \A i \in info.sep.live : \E p \in DOMAIN s : s[p] \in info.sep.reqs[i]
@@ -146,6 +150,9 @@ NReplay(ds, t, mt) ==
 SepCall(ds, mt) ==
   CASE info.sep.kind = "char" -> [ok |-> TRUE, val |-> info.sep.val, rest |-> ds]
     [] info.sep.kind = "none" -> [ok |-> TRUE, val |-> <<>>, rest |-> ds]
+    [] info.sep.kind = "list" -> IF ds # <<>> /\ ds[1][1] = Len(cell.wl.sepVals) /\ ds[1][2] < Len(cell.wl.sepVals)
+                                 THEN [ok |-> TRUE, val |-> cell.wl.sepVals[ds[1][2] + 1], rest |-> Tail(ds)]
+                                 ELSE [ok |-> FALSE, val |-> <<>>, rest |-> ds]
     [] OTHER -> IF info.sep.refused THEN [ok |-> TRUE, val |-> <<>>, rest |-> ds]
                 ELSE IF ~info.sep.generates THEN [ok |-> FALSE, val |-> <<>>, rest |-> ds]     \* inside the refusal band: not replayed
                 ELSE NReplay(ds, 1, mt)
@@ -235,6 +242,7 @@ LeafWhys(c, lf) ==
 \* Its image on token sequences is computed here by enumerating WordGen!Paths and folding WordGen!Build.
 SepValues == CASE info.sep.kind = "char" -> {info.sep.val}
                [] info.sep.kind = "none" -> {<<>>}
+               [] info.sep.kind = "list" -> info.sep.vals
                [] OTHER -> IF info.sep.refused THEN {<<>>} ELSE ValidStrings(info.sep.r)
 CapChoices == LET L == info.L IN
               CASE info.cap = "first" -> {{0}} [] info.cap = "all" -> {0..(L-1)}
@@ -253,6 +261,12 @@ SpecPathCount == Cardinality(CapChoices) * IPow(info.size, info.L) * IPow(Cardin
 DistDecidable(c) == info.sep.uniform /\ failW = 0 /\ c.wl.len >= 1 /\ c.size >= 1 /\ c.size = Len(c.kept) /\ Len(c.keptTitles) = Len(c.kept)
                     /\ SpecPathCount <= 4000
 
+\* which atoms of a returned password are in title-cased form (only meaningful when every kept word changes under title-casing)
+PatternOf(key) == LET as == SelectSeq(key, LAMBDA t : t[1] = 1) IN {k \in 1..Len(as) : as[k][2] \in info.titled /\ as[k][2] \notin info.kept}
+ExpectedPatterns == LET L == info.L IN
+  CASE info.cap = "first" -> {{1}} [] info.cap = "all" -> {1..L} [] info.cap = "one" -> {{k} : k \in 1..L}
+    [] info.cap = "random" -> SUBSET (1..L) [] OTHER -> {{}}
+
 \* ---------------- cellend ----------------
 Weights == {acc[s] : s \in DOMAIN acc}
 MaxW == CHOOSE w \in Weights : \A v \in Weights : v <= w
@@ -268,6 +282,10 @@ EndWhys(c) ==
     IF info.allCap /\ info.premise /\ info.sep.uniform /\ failW = 0 /\ cutW = 0
        /\ FromInt(Cardinality(DOMAIN acc)) # PasswordCountBig(c, info)
       THEN "P:C04:number-of-distinct-passwords-differs-from-words^L-x-capitalisations-x-separators" ELSE "ok",
+    \* C05: the capitalised positions are exactly the ones the scheme can select - every such selection occurs, no other does
+    IF info.allCap /\ info.premise /\ failW = 0 /\ cutW = 0 /\ c.wl.len >= 1 /\ c.size >= 1 /\ c.wl.len <= 8
+       /\ {PatternOf(o) : o \in DOMAIN acc} # ExpectedPatterns
+      THEN "P:C05:capitalised-positions-are-not-exactly-those-the-scheme-can-select" ELSE "ok",
     \* C04 in general (also with uncapitalisable words): the measured distribution is the image of the uniform, independent choices
     IF DistDecidable(c) /\ ~(LET sd == SpecDist
                                 n == SpecPathCount
